@@ -515,6 +515,9 @@ func (u *Unit) symVal(name string, t types.Type, entry bool) Val {
 			tv[i] = u.symVal(fmt.Sprintf("%s.%d", name, i), ut.At(i).Type(), entry)
 		}
 		return tv
+	case *types.Array:
+		// an array value: the contents of some (entry-state) object
+		return &ArrayV{Base: av(name + ".arr"), T: ut, St: &State{pc: c.True, cells: map[*ssa.Alloc]Val{}, mems: map[string]*Mem{}}}
 	}
 	unsupported("symbolic value of %s", t)
 	return nil
